@@ -51,8 +51,14 @@ package stream
 //@ ghost func walks(a publictypes.APIStreamI, io streamtypes.ProcessorIO) bool = (reqT(a) || resT(a)) && !scReq(a, io) && !scRes(a, io) && !early(a, io)
 //@ ghost func matchE(n *streamflow.FlowGraphNode, k int, o string) bool = n.edges[k].node != nil && n.edges[k].condition == o
 
+// C05 (termination): the validated part of a graph is ranked — every connection between processors leads to a node of
+// strictly smaller rank (ghost fields; the ranking is what the cycle check of the validator establishes, see package flow).
+//@ ghost spec rankedOK() bool = forall(n, *streamflow.FlowGraphNode, allocated(n) && n.ranked ==> n.rank >= 0 && forall(k, 0, len(n.edges), n.edges[k] != nil && (n.edges[k].node != nil ==> n.edges[k].node.ranked && n.edges[k].node.rank < n.rank)))
+
 //@ func (*Stream).ExecuteFlow
-//@   prop C04
+//@   prop C04, C05
+//@   requires[ranked] nd(node).ranked && rankedOK()
+//@   decreases nd(node).rank
 //@   results sc, err
 //@   ghostlocal me int
 //@   ghostlocal cidx gmap[int]int
